@@ -65,6 +65,21 @@ class Collector(ast.NodeVisitor):
             pass
         super().generic_visit(node)
 
+    # type annotations and return annotations are not behaviour
+    def visit_arg(self, node):
+        return
+
+    def visit_FunctionDef(self, node):
+        for d in node.args.defaults + node.args.kw_defaults:
+            if d is not None:
+                self.visit(d)
+        for st in node.body:
+            self.visit(st)
+
+    def visit_AnnAssign(self, node):
+        if node.value is not None:
+            self.visit(node.value)
+
     def visit_Compare(self, node):
         for k, op in enumerate(node.ops):
             for v in CMP.get(type(op), []):
